@@ -24,3 +24,38 @@ package jschema
 //@   modifies *
 //@   ensures normal ==> s.compileOnce.once.fired && result == s.compileOnce.err
 //@   ensures normal && old(s.compileOnce.once.fired) ==> result == old(s.compileOnce.err)
+
+// ---- C11: "values handed to the caller never change after later API calls" ----
+// The bytes an object / array example is returned in are allocated by this call
+// (owned by the caller), never the storage of a pooled buffer.
+// Build / buildObjectKey are treated as arbitrary code here (recursion over the
+// type graph): only the ownership of the returned slice is stated.
+
+//@ func (*exampleBuilder).Build(node)
+//@   props C11
+//@   trusted "recursive example assembly: arbitrary effect (nothing assumed)"
+//@   maypanic
+//@   modifies *
+//@ func (*exampleBuilder).buildObjectKey(k)
+//@   props C11
+//@   trusted "key example: arbitrary effect (nothing assumed)"
+//@   maypanic
+//@   modifies *
+
+//@ func (*exampleBuilder).buildExampleForObjectNode(node)
+//@   props C11
+//@   requires b != nil && node != nil
+//@   assumes consReady(box(node))
+//@   maypanic
+//@   modifies *
+//@   ensures normal && result1 == nil ==> result0.$arr > old(alloc)
+//@   loop 0 invariant rangeindex >= 0 - 1
+
+//@ func (*exampleBuilder).buildExampleForArrayNode(node)
+//@   props C11
+//@   requires b != nil && node != nil
+//@   assumes consReady(box(node))
+//@   maypanic
+//@   modifies *
+//@   ensures normal && result1 == nil ==> result0.$arr > old(alloc)
+//@   loop 0 invariant rangeindex >= 0 - 1
